@@ -295,6 +295,7 @@ type LongHistoryGrid struct{ d *SnapDriver }
 
 type longCase struct {
 	Count, Before, After int
+	Count2               int // a second resize after the long history (0 = none), followed by 12 more ticks
 }
 
 func NewLongHistoryGrid() *LongHistoryGrid {
@@ -313,8 +314,16 @@ func (g *LongHistoryGrid) Cases(tier string) []GridCase {
 	var out []GridCase
 	for _, c := range counts {
 		for _, p := range before {
-			out = append(out, GridCase{Name: fmt.Sprintf("tick^%d, updateSnapshotCount(%d), tick^300", p, c), Data: longCase{c, p, 300}})
+			out = append(out, GridCase{Name: fmt.Sprintf("tick^%d, updateSnapshotCount(%d), tick^300", p, c), Data: longCase{Count: c, Before: p, After: 300}})
 		}
+	}
+	// a second resize at a large ring position (shrinks and a growth by one), then a dozen ticks
+	second := [][3]int{{256, 200, 3}, {256, 130, 200}, {255, 200, 256}}
+	if tier == "thorough" {
+		second = append(second, [3]int{256, 300, 3}, [3]int{256, 255, 255}, [3]int{200, 300, 100}, [3]int{255, 128, 3}, [3]int{100, 300, 256})
+	}
+	for _, sc := range second {
+		out = append(out, GridCase{Name: fmt.Sprintf("tick^9, updateSnapshotCount(%d), tick^%d, updateSnapshotCount(%d), tick^12", sc[0], sc[1], sc[2]), Data: longCase{Count: sc[0], Before: 9, After: sc[1], Count2: sc[2]}})
 	}
 	return out
 }
@@ -352,6 +361,21 @@ func (g *LongHistoryGrid) Eval(x *Exec, root *Node, gc GridCase) GridResult {
 		if v := step(0, full); v != nil {
 			v.Where["epoch"] = e
 			return GridResult{Outcome: "violation", Nontrivial: true, V: []*Violation{v}}
+		}
+	}
+	if c.Count2 > 0 {
+		d.counts = []int{c.Count2}
+		res := n.M.(*snapModel).resizes
+		if v := step(1, true); v != nil {
+			return GridResult{Outcome: "violation", Nontrivial: true, V: []*Violation{v}}
+		}
+		if n.M.(*snapModel).resizes == res {
+			return GridResult{Outcome: "second-resize-refused", Nontrivial: true}
+		}
+		for i := 0; i < 12; i++ {
+			if v := step(0, true); v != nil {
+				return GridResult{Outcome: "violation", Nontrivial: true, V: []*Violation{v}}
+			}
 		}
 	}
 	return GridResult{Outcome: "history-exact", Nontrivial: true}
